@@ -1,6 +1,6 @@
 from sympy.physics import units
-from sympy.physics.units import convert_to
 from .quantities import Quantity
+from ..convert import convert_to as convert_quantity_to
 
 
 class Celsius:
@@ -33,5 +33,7 @@ def from_kelvin(value: float) -> Celsius:
 
 
 def from_kelvin_quantity(value: Quantity) -> Celsius:
-    kelvin_value = float(convert_to(value, units.kelvin).subs(units.kelvin, 1).evalf())
+    # NOTE: a temperature of exactly zero kelvin is a zero quantity, which SymPy's `convert_to`
+    # cannot express in kelvins
+    kelvin_value = float(convert_quantity_to(value, units.kelvin))
     return from_kelvin(kelvin_value)
